@@ -23,7 +23,7 @@ DOCSTRING = [
     "Feature: f\n", "  Scenario: s\n", "    Given x\n", '      """\n', "      ```\n", '    """ text/plain\n', "        ``` json\n",
     "      Scenario: no\n", "  @tag\n", "# c\n", "\n", "        | a |\n", "   less\n", '      \\"\\"\\"\n', "      \\`\\`\\`\n",
     "    Examples:\n", "          deep\n", "  Background:\n", "  Scenario Outline: o\n", "            \n", "  Rule: r\n", '      """ # end\n', '      x \\"\\"\\" y \\"\\"\\" \\`\\`\\`\n', '      \\""" \\"\\"" "\\"\\" \\`` `\n',
-    '      """"json\n', "      ````\n", '      """ a\\"\\"\\"b\n', '      \\\\\\"\\"\\" \\\\\\`\\`\\`\n',
+    '      """"json\n', "      ````\n", '      """ a\\"\\"\\"b\n', '  \\"\\"\\" out\n', '      \\\\\\"\\"\\" \\\\\\`\\`\\`\n',
 ]
 
 # errors: faults of every kind
